@@ -20,6 +20,7 @@ import (
 	"os/exec"
 	"strconv"
 	"strings"
+	"time"
 
 	"github.com/rs/zerolog"
 	"verifharness/vh"
@@ -59,14 +60,54 @@ func execCase(kind string, in []string) []string {
 	}
 	line := kind + " " + strings.Join(in, " ") + "\n"
 	_, werr := io.WriteString(cur.in, line)
-	resp, rerr := cur.out.ReadString('\n')
+	type rd struct {
+		s   string
+		err error
+	}
+	w := cur
+	ch := make(chan rd, 1)
+	go func() { s, err := w.out.ReadString('\n'); ch <- rd{s, err} }()
+	var resp string
+	var rerr error
+	select {
+	case r := <-ch:
+		resp, rerr = r.s, r.err
+	case <-time.After(caseDeadline(kind)):
+		// the worker does not answer (a goroutine of the code under test spins or everything is blocked)
+		_ = cur.cmd.Process.Kill()
+		_ = cur.cmd.Wait()
+		cur = nil
+		return []string{"no-answer"}
+	}
 	if werr != nil || rerr != nil {
 		_ = cur.in.Close()
 		_ = cur.cmd.Wait()
 		cur = nil
 		return []string{"crash"}
 	}
-	return strings.Split(strings.TrimRight(resp, "\n"), " ")
+	outs := strings.Split(strings.TrimRight(resp, "\n"), " ")
+	if kind == "fault" {
+		for _, o := range outs {
+			if strings.Contains(o, "hang") {
+				// an operation never returned: its goroutine may be spinning; do not reuse this process
+				_ = cur.cmd.Process.Kill()
+				_ = cur.cmd.Wait()
+				cur = nil
+				break
+			}
+		}
+	}
+	return outs
+}
+
+func caseDeadline(kind string) time.Duration {
+	switch kind {
+	case "stress", "burst":
+		return 10 * time.Minute
+	case "fault":
+		return 60 * time.Second
+	}
+	return 3 * time.Minute
 }
 
 func workerMain() {
@@ -84,6 +125,8 @@ func workerMain() {
 			outs = runStress(parts[1:])
 		case "burst":
 			outs = runBurst(parts[1:])
+		case "fault":
+			outs = runFault(parts[1:])
 		default:
 			outs = []string{"UNKNOWN-KIND"}
 		}
